@@ -120,4 +120,95 @@ def denoteList (H : Hash2) (c : Config) (owners : Owners) (views : List ViewDef)
   | some s, some d, some b, some f, some r => some ⟨s, d, b, f, r⟩
   | _, _, _, _, _ => none
 
+/-! ### vector wrapper types (`type RandaoMixes []Root`, `type DepositProof [33]Root`) -/
+
+def vecSer (c : Config) (owners : Owners) (views : List ViewDef) (e : Impl) : Method → Option (Val → Bytes)
+  | .vector _ size _ => (denoteSize c owners views size).map fun s => seqSer e s
+  | .list _ size _ => (denoteSize c owners views size).map fun s => seqSer e s   -- `tree.WriteRoots(w, a)`
+  | _ => none
+
+def vecDes (c : Config) (owners : Owners) (views : List ViewDef) (e : Impl) : Method → Option (Bytes → Option Val)
+  | .vector _ size (some len) => (denoteSize c owners views size).map fun s => vectorDes e s (len.eval c)
+  | _ => none
+
+def vecBlen (c : Config) (owners : Owners) (views : List ViewDef) : Method → Option (Val → Nat)
+  | .lenTimes size => (denoteSize c owners views (some size)).map lenTimesFn
+  | m => (denoteLen c owners views m).map fun n => fun _ => n
+
+/-- the merkleization helpers with the length taken from the receiver (`len(a)`) -/
+def complexVectorRootLen (H : Hash2) (e : Impl) : Val → Chunk
+  | .seq vs => merkleize H (vs.map e.root) (ceilLog2 vs.length)
+  | _ => zeroChunk
+
+def uintVectorRootLen (H : Hash2) (e : Impl) (k : Nat) : Val → Chunk
+  | .seq vs => merkleize H (pack (vs.map e.ser).flatten) (ceilLog2 (chunkCount vs.length k))
+  | _ => zeroChunk
+
+def vecRoot (H : Hash2) (c : Config) (e : Impl) : Method → Option (Val → Chunk)
+  | .vector v _ len =>
+    if v == n!"ComplexVectorHTR" || v == n!"ChunksHTR" then
+      some (match len with
+        | some l => complexVectorRoot H e (l.eval c)
+        | none => complexVectorRootLen H e)
+    else if v == n!"Uint64VectorHTR" then
+      some (match len with
+        | some l => uintVectorRoot H e 8 (l.eval c)
+        | none => uintVectorRootLen H e 8)
+    else none
+  | _ => none
+
+/-- denotation of a vector wrapper type over the implementation `e` of its element type -/
+def denoteVector (H : Hash2) (c : Config) (owners : Owners) (views : List ViewDef) (e : Impl) (T : GoType) : Option Impl :=
+  match vecSer c owners views e T.serialize, vecDes c owners views e T.deserialize,
+    vecBlen c owners views T.byteLength, denoteLen c owners views T.fixedLength, vecRoot H c e T.hashTreeRoot with
+  | some s, some d, some b, some f, some r => some ⟨s, d, b, f, r⟩
+  | _, _, _, _, _ => none
+
+/-! ### leaf and bitfield rows: functions of the raw representation -/
+
+def leafDes (c : Config) : Method → Option (Bytes → Option Bytes)
+  | .raw v n k =>
+    if v == n!"ReadAll" then some (goReadExact n)
+    else if v == n!"ReadPadChecked" then some (goReadBitVector (8 * (n - 1) + k))
+    else none
+  | .basic v k => if v == n!"ViewDeserialize" then some (goReadExact k) else none
+  | .bits v (some lim) =>
+    if v == n!"BitVector" then some (goReadBitVector (lim.eval c))
+    else if v == n!"ReadBitList" then some (fun bs => if goReadBitList (lim.eval c) bs then some bs else none)
+    else if v == n!"ByteList" then some (goReadByteList (lim.eval c))
+    else none
+  | _ => none
+
+/-- every recognised serializer of a leaf writes the raw bytes as they are (`w.Write`, `w.WriteUint64`, `w.BitVector`,
+`w.BitList`; the latter two return an error instead for raw bytes that are no bitfield at all) -/
+def leafSer : Method → Option (Bytes → Bytes)
+  | .raw v _ _ => if v == n!"Write" then some id else none
+  | .basic v _ => if v == n!"WriteUint" then some id else none
+  | .bits v _ => if v == n!"Write" || v == n!"BitVector" || v == n!"BitList" then some id else none
+  | _ => none
+
+def leafBlen (c : Config) (owners : Owners) (views : List ViewDef) : Method → Option (Bytes → Nat)
+  | .len => some List.length
+  | m => (denoteLen c owners views m).map fun n => fun _ => n
+
+def leafRoot (H : Hash2) (c : Config) : Method → Option (Bytes → Chunk)
+  | .htrTree _ t => some fun raw => htEval H raw t
+  | .basic v _ => if v == n!"ViewHashTreeRoot" then some padTo32 else none
+  | .bits v lim =>
+    if v == n!"BitVectorHTR" then some (goBytesRoot H)
+    else match lim with
+      | some l =>
+        if v == n!"BitListHTR" then some (goBitListRoot H (l.eval c))
+        else if v == n!"ByteListHTR" then some (goByteListRoot H (l.eval c))
+        else none
+      | none => none
+  | _ => none
+
+/-- denotation of a leaf / bitfield type's five methods -/
+def denoteLeaf (H : Hash2) (c : Config) (owners : Owners) (views : List ViewDef) (T : GoType) : Option LeafImpl :=
+  match leafDes c T.deserialize, leafSer T.serialize, leafBlen c owners views T.byteLength,
+    denoteLen c owners views T.fixedLength, leafRoot H c T.hashTreeRoot with
+  | some d, some s, some b, some f, some r => some ⟨d, s, b, f, r⟩
+  | _, _, _, _, _ => none
+
 end Zrnt.Schema.Facts
